@@ -1,4 +1,3 @@
-"""Translator jobs: which functions of /repo are regenerated into coq/Gen/<job>.v, with declared signatures."""
 JOBS = {
     "options_ext": dict(
         file="aiocoap/options.py",
